@@ -69,6 +69,7 @@ type c11Mut struct {
 type c11EncCase struct {
 	Orig    c11Orig    `json:"orig"`
 	Time    int64      `json:"time"`
+	TimeNs  int64      `json:"time_ns,omitempty"` // sub-second part of the block time (the signed header carries whole seconds)
 	ID      uint64     `json:"id"`
 	Content c11Content `json:"content"`
 	Mut     c11Mut     `json:"mut"`
@@ -342,6 +343,9 @@ var mutTargets = []string{
 
 func genC11Enc(rt *rapid.T) c11EncCase {
 	c := c11EncCase{Orig: genOrig(rt), Time: genTime(rt, "time"), ID: genU64(rt, "id"), Content: genContent(rt)}
+	if gen.Chance(rt, "subsecond", 1, 2) {
+		c.TimeNs = gen.OneOf[int64](rt, "time-ns", 1, 1_000_000, 499_999_999, 500_000_000, 600_000_000, 999_999_999)
+	}
 	if c.ID == 0 && gen.Chance(rt, "id-nonzero", 9, 10) {
 		c.ID = 1 // signing ids start at 1; 0 is kept with low probability as an encoding edge
 	}
@@ -403,7 +407,7 @@ func toOracleResult(r ref.OracleResult) oracletypes.Result {
 func execute(e *handlerEnv, c c11EncCase) (implOut, error) {
 	var out implOut
 	ctx, _ := e.base.CacheContext()
-	ctx = ctx.WithBlockTime(time.Unix(c.Time, 0).UTC())
+	ctx = ctx.WithBlockTime(time.Unix(c.Time, c.TimeNs).UTC())
 	var content tsstypes.Content
 	switch c.Content.Kind {
 	case "text":
